@@ -410,6 +410,10 @@ def case3(ctx, a, q, theta, unit, form, lams):
             Tk = c.call('exp', lambda: Sk.exp())
             if Tk is not None:
                 c.near('exp-of-smul', Tk.A, T, sq)
+            if abs(theta) > 1e-6:      # the unit twist of k S is sign(k) S (fix ca82070)
+                U = c.call('unit-of-smul', lambda: Sk.unit)
+                if U is not None:
+                    c.near('unit-of-smul', U.S, S.S * np.sign(theta), sq)
         # scalar on the left: k*S == S*k, exp(k*S) == S.exp(k)   (float and int factors)
         c3 = Chk(ctx, 'Twist3', inp)
         Sr = c3.call('left-scalar', lambda: theta * S)
